@@ -717,7 +717,7 @@ func handleRandomkey(params internal.HandlerFuncParams) ([]byte, error) {
 
 	key := params.Randomkey(params.Context)
 
-	return []byte(fmt.Sprintf("+%v\r\n", key)), nil
+	return []byte(fmt.Sprintf("$%d\r\n%s\r\n", len(key), key)), nil
 }
 
 func handleGetdel(params internal.HandlerFuncParams) ([]byte, error) {
